@@ -1,7 +1,7 @@
 (* C04 / C06: invariants of the subscription LTS (Model/SubBook.v), proved for every trace by induction over
    `fold_left`, and the lemmas the property theorems in Props/C04.v, Props/C06.v are closed with. *)
 From Coq Require Import List NArith ZArith Bool Arith Lia.
-From JV Require Import Model.SubBook.
+From JV Require Import Model.AcceptSteps Gen.AcceptOrderGen Model.SubBook.
 Import ListNotations.
 Arguments N.add : simpl never.
 Arguments N.eqb : simpl never.
@@ -102,7 +102,7 @@ Qed.
 (* a subscription occupies a slot of its connection while its pending sink or at least one clone is alive *)
 Definition live (b : sub) : bool :=
   match s_state b with
-  | SPending | SAccepting => true
+  | SPending | SAccepting | SAbandoned => true
   | SActive => match s_sinks b with [] => false | _ => true end
   | _ => false
   end.
@@ -501,18 +501,22 @@ Proof.
 Qed.
 
 Lemma lo_fail : forall base meth n h b cn t x fo o1,
-  sub_ok base meth n h b -> s_state b = SPending -> (x = SRejected \/ x = SDone) ->
+  sub_ok base meth n h b -> (s_state b = SPending \/ s_state b = SAbandoned) -> (x = SRejected \/ x = SDone) ->
   (forall f, fo = Some f -> is_notif f = false) ->
   (forall h2, log_of h2 o1 = []) -> (forall h' k y ok, In (OSendResult h' k y ok) o1 -> h' = h) ->
   local_ok base meth n h b (sb_fail x (s_has_permit b) b) cn (rel_conn (s_has_permit b) (c_push_opt fo cn)) t t o1
     (opt_frames fo cn).
 Proof.
   intros base meth n h b cn t x fo o1 Hok Hp Hx Hfo Hl Ho.
+  assert (Hlive : live b = true) by (unfold live; destruct Hp as [Hp | Hp]; rewrite Hp; reflexivity).
+  assert (Hna : s_state b <> SActive) by (destruct Hp as [Hp | Hp]; rewrite Hp; discriminate).
+  assert (Hnacc : ~ accepted b) by (unfold accepted; destruct Hp as [Hp | Hp]; rewrite Hp; intros [|]; discriminate).
+  assert (Hak : akey b = None) by (unfold akey; destruct Hp as [Hp | Hp]; rewrite Hp; reflexivity).
   assert (Hperm : s_has_permit b = true).
-  { destruct Hok as [_ [_ [_ [E _]]]]. rewrite E. unfold live. rewrite Hp. reflexivity. }
+  { destruct Hok as [_ [_ [_ [E _]]]]. rewrite E. exact Hlive. }
   assert (Hok' : sub_ok base meth n h (sb_fail x (s_has_permit b) b)).
-  { rewrite Hperm. sub_fields b. unfold sub_ok, live, sb_fail, rel_sub in *. cbn in *. subst.
-    destruct Hx; subst; cbn; intuition (try congruence; try discriminate). }
+  { rewrite Hperm. sub_fields b. unfold sub_ok, live, sb_fail, rel_sub in *. cbn in *.
+    destruct Hp as [Hp | Hp]; subst; destruct Hx; subst; cbn; intuition (try congruence; try discriminate). }
   assert (Hnn : forall f, In f (opt_frames fo cn) -> is_notif f = false).
   { intros f Hf. apply Hfo. eapply opt_frames_in. eassumption. }
   destruct (push_opt_conn fo cn) as [P1 [P2 [P3 P4]]].
@@ -520,11 +524,11 @@ Proof.
   constructor.
   - unfold sb_fail, rel_sub. repeat split.
   - exact Hok'.
-  - intro. congruence.
-  - unfold accepted. rewrite Hp. intros [|]; discriminate.
+  - intro. contradiction.
+  - intro. contradiction.
   - unfold rel_conn, c_give_permit, c_set_permits, sent in *. cbn. auto.
   - unfold rel_conn, c_give_permit, c_set_permits, sb_fail, rel_sub. cbn. rewrite P3, Hperm. cbn. lia.
-  - right. split; [reflexivity|]. unfold akey, sb_fail, rel_sub. cbn. rewrite Hp. destruct Hx; subst; reflexivity.
+  - right. split; [reflexivity|]. rewrite Hak. unfold akey, sb_fail, rel_sub. cbn. destruct Hx; subst; reflexivity.
   - intros f Hf Hn. rewrite (Hnn f Hf) in Hn. discriminate.
   - unfold accepted, sb_fail, rel_sub. cbn. destruct Hx; subst; intros [|]; discriminate.
   - rewrite (count_closing_zero (s_id b) (opt_frames fo cn)) by (intros f Hf Hn; rewrite (Hnn f Hf) in Hn; discriminate).
@@ -533,6 +537,37 @@ Proof.
     symmetry. apply plain_none. intros f Hf Hn. rewrite (Hnn f Hf) in Hn. discriminate.
   - exact Ho.
   - unfold sb_fail, rel_sub. cbn. destruct Hx; subst; intros; discriminate.
+Qed.
+
+(* the subscribe call is abandoned and the pending sink lives on elsewhere: the handler future is gone, the
+   middleware's answer is enqueued, the permit stays with the pending sink *)
+Lemma lo_abandon : forall base meth n h b cn t f,
+  sub_ok base meth n h b -> s_state b = SPending -> is_notif f = false ->
+  local_ok base meth n h b (sb_returned None (sb_state SAbandoned b)) cn (c_push_opt (Some f) cn) t t [OAck]
+    (opt_frames (Some f) cn).
+Proof.
+  intros base meth n h b cn t f Hok Hp Hf.
+  assert (Hok' : sub_ok base meth n h (sb_returned None (sb_state SAbandoned b))).
+  { sub_fields b. unfold sub_ok, live in *. cbn in *. subst. intuition (try congruence; try discriminate). }
+  assert (Hnn : forall g, In g (opt_frames (Some f) cn) -> is_notif g = false).
+  { intros g Hg. apply opt_frames_in in Hg. inversion Hg. subst. assumption. }
+  destruct (push_opt_conn (Some f) cn) as [P1 [P2 [P3 P4]]].
+  constructor.
+  - repeat split.
+  - exact Hok'.
+  - intro. congruence.
+  - unfold accepted. rewrite Hp. intros [|]; discriminate.
+  - auto.
+  - rewrite P3. reflexivity.
+  - right. split; [reflexivity|]. unfold akey. cbn. rewrite Hp. reflexivity.
+  - intros g Hg Hn. rewrite (Hnn g Hg) in Hn. discriminate.
+  - unfold accepted. cbn. intros [|]; discriminate.
+  - rewrite (count_closing_zero (s_id b) (opt_frames (Some f) cn)) by (intros g Hg Hn; rewrite (Hnn g Hg) in Hn; discriminate).
+    split; [left; unfold ret_pending; cbn; lia|]. split; [reflexivity | intro; lia].
+  - intro h2. cbn [log_of filter_map log_item]. destruct (Nat.eqb h2 h); [|reflexivity].
+    symmetry. apply plain_none. intros g Hg Hn. rewrite (Hnn g Hg) in Hn. discriminate.
+  - intros h' k y ok [H | []]. discriminate.
+  - cbn. intros; discriminate.
 Qed.
 
 Lemma key_dec : forall a b : nat * N, {a = b} + {a <> b}.
@@ -1049,6 +1084,40 @@ Proof.
   intros g Hg. apply opt_frames_in in Hg. inversion Hg. subst. assumption.
 Qed.
 
+(* ------------------------------------------------------------------ accept(), for the order read from the source *)
+Lemma upd_ext_at : forall A (f g : A -> A) l n x, nth_error l n = Some x -> f x = g x -> upd n f l = upd n g l.
+Proof.
+  induction l as [|a l IH]; intros [|n] x H E; cbn in *; try discriminate.
+  - inversion H; subst. rewrite E. reflexivity.
+  - f_equal. eapply IH; eassumption.
+Qed.
+
+Lemma apply_ext : forall s h b cn fs fs' fc fc' t, nth_error (subs s) h = Some b -> nth_error (conns s) (s_conn b) = Some cn ->
+  fs b = fs' b -> fc cn = fc' cn -> apply s h b fs fc t = apply s h b fs' fc' t.
+Proof. intros. unfold apply. f_equal; eapply upd_ext_at; eassumption. Qed.
+
+(* accept() as a whole, in the order Gen/AcceptOrderGen.accept_steps has NOW (computed on that constant): a run that
+   fails -- at the send to the sink or at the notification of the call -- leaves the subscriber table as it found it.
+   False as soon as the table insert stands in front of a fallible step. *)
+Lemma accept_failure_keeps_table : forall op call b fs fc t,
+  ar_ok (accept_run op call b accept_steps fs fc t) = false -> ar_table (accept_run op call b accept_steps fs fc t) = t.
+Proof.
+  intros op call b fs fc t. unfold accept_steps. cbn [accept_run].
+  destruct op, call; cbn [ar_ok ar_table]; intro H; try discriminate H; reflexivity.
+Qed.
+
+(* The seam the model puts into accept(), COMPUTED on the generated constant Gen/AcceptOrderGen.accept_steps: these two
+   equations are where the proofs below depend on the order the source has now.  With the table insert moved in front
+   of a fallible send they are false, and so are the invariant `inv_table` and the theorems that rest on it. *)
+Lemma accept_phase1_now : accept_phase1 = [ASendToSink; ANotifyCall].
+Proof. reflexivity. Qed.
+
+Lemma accept_phase2_now : accept_phase2 = [ATableInsert; ABuildSink].
+Proof. reflexivity. Qed.
+
+Lemma holds_pending_cases : forall x, holds_pending x = true -> x = SPending \/ x = SAbandoned.
+Proof. intros [] H; try discriminate; auto. Qed.
+
 (* ------------------------------------------------------------------ one step keeps the invariants *)
 Lemma quiet1 : forall s ob, (forall h k x, ob <> OSendResult h k x true) ->
   (forall h k x ok, ob = OSendResult h k x ok -> h < length (subs s)) -> obs_quiet s [ob].
@@ -1071,28 +1140,65 @@ Proof.
     destruct (c_permits cn) as [|p] eqn:Hp; cbn [fst snd].
     + unfold push. apply (conn_upd_inv s o c cn _ _ I IO Hc); [apply push_rel; reflexivity | quiet_obs].
     + exact (subscribe_admit_inv s o c cn p req I IO Hc Hp).
-  - (* Accept1 *)
+  - (* Accept1: the answering part of accept(), in the order read from the source *)
+    destruct (nth_error (subs s) h) as [b|] eqn:Hb; [|apply noop_inv; assumption].
+    destruct (conn_of_sub s h b I Hb) as [cn Hcn]. pose proof (inv_sub s I _ _ Hb) as Hok.
+    destruct (holds_pending (s_state b)) eqn:Hp; [|apply noop_inv; assumption].
+    pose proof (holds_pending_cases _ Hp) as Hp'.
+    rewrite accept_phase1_now. cbn [accept_run]. rewrite (conn_open_eq _ _ _ Hcn).
+    destruct (c_open cn) eqn:Ho.
+    + destruct (call_waiting (s_state b)) eqn:Hw; cbn [ar_ok ar_sub ar_conn ar_table fst snd].
+      * (* both sends succeed *)
+        assert (Es : s_state b = SPending) by (destruct (s_state b); try discriminate; reflexivity).
+        eapply apply_inv; eauto. apply lo_accept1; assumption.
+      * (* the call is gone: the response was enqueued, subscribe.send fails *)
+        rewrite (apply_ext s h b cn _ (sb_fail SDone (s_has_permit b)) _
+                   (fun cn0 => rel_conn (s_has_permit b) (c_push_opt (Some (FSubOk (s_req b) (s_id b))) cn0)) _ Hb Hcn);
+          [| reflexivity | cbn [c_push_opt]; unfold c_push; rewrite Ho; reflexivity].
+        eapply apply_inv; eauto.
+        apply (lo_fail _ _ _ _ _ _ _ SDone (Some (FSubOk (s_req b) (s_id b)))); auto; try reflexivity.
+        -- intros f E. inversion E. reflexivity.
+        -- intros h' k y ok [H | []]. discriminate.
+    + (* inner.send fails: nothing was done *)
+      cbn [ar_ok ar_sub ar_conn ar_table fst snd]. eapply apply_inv; eauto.
+      apply (lo_fail _ _ _ _ _ _ _ SDone None); auto; try reflexivity. intros; discriminate.
+      intros h' k y ok [H | []]. discriminate.
+  - (* Accept2: the rest of accept() *)
     destruct (nth_error (subs s) h) as [b|] eqn:Hb; [|apply noop_inv; assumption].
     destruct (conn_of_sub s h b I Hb) as [cn Hcn]. pose proof (inv_sub s I _ _ Hb) as Hok.
     destruct (s_state b) eqn:Es; try (apply noop_inv; assumption).
-    destruct (conn_open s (s_conn b)); cbn [fst snd].
-    + eapply apply_inv; eauto. apply lo_accept1; assumption.
-    + eapply apply_inv; eauto.
-      apply (lo_fail _ _ _ _ _ _ _ SDone None); auto; try reflexivity. intros; discriminate.
-      intros h' k y ok [H | []]. discriminate.
-  - (* Accept2 *)
-    destruct (nth_error (subs s) h) as [b|] eqn:Hb; [|apply noop_inv; assumption].
-    destruct (conn_of_sub s h b I Hb) as [cn Hcn]. pose proof (inv_sub s I _ _ Hb) as Hok.
-    destruct (s_state b) eqn:Es; try (apply noop_inv; assumption). cbn [fst snd].
+    rewrite accept_phase2_now. cbn [accept_run ar_ok ar_sub ar_conn ar_table fst snd].
     eapply apply_inv; eauto. apply lo_accept2; assumption.
   - (* Reject *)
     destruct (nth_error (subs s) h) as [b|] eqn:Hb; [|apply noop_inv; assumption].
     destruct (conn_of_sub s h b I Hb) as [cn Hcn]. pose proof (inv_sub s I _ _ Hb) as Hok.
-    destruct (s_state b) eqn:Es; try (apply noop_inv; assumption). cbn [fst snd].
+    destruct (holds_pending (s_state b)) eqn:Hp; [|apply noop_inv; assumption]. cbn [fst snd].
+    pose proof (holds_pending_cases _ Hp) as Hp'.
     eapply apply_inv; eauto.
     apply (lo_fail _ _ _ _ _ _ _ SRejected (Some (FErr (s_req b) (ERejected code)))); auto; try reflexivity.
     + intros f E. inversion E. reflexivity.
     + intros h' k y ok [H | []]. discriminate.
+  - (* AbandonCall *)
+    destruct (nth_error (subs s) h) as [b|] eqn:Hb; [|apply noop_inv; assumption].
+    destruct (conn_of_sub s h b I Hb) as [cn Hcn]. pose proof (inv_sub s I _ _ Hb) as Hok.
+    destruct (s_state b) eqn:Es; try (apply noop_inv; assumption).
+    destruct keep; cbn [fst snd].
+    + eapply apply_inv; eauto. apply (lo_abandon _ _ _ _ _ _ _ (FErr (s_req b) EAbandoned)); auto.
+    + eapply apply_inv; eauto.
+      apply (lo_fail _ _ _ _ _ _ _ SDone (Some (FErr (s_req b) EAbandoned))); auto; try reflexivity.
+      * intros f E. inversion E. reflexivity.
+      * intros h' k y ok [H | []]. discriminate.
+  - (* DropPending *)
+    destruct (nth_error (subs s) h) as [b|] eqn:Hb; [|apply noop_inv; assumption].
+    destruct (conn_of_sub s h b I Hb) as [cn Hcn]. pose proof (inv_sub s I _ _ Hb) as Hok.
+    destruct (s_state b) eqn:Es; try (apply noop_inv; assumption); cbn [fst snd].
+    + eapply apply_inv; eauto.
+      apply (lo_fail _ _ _ _ _ _ _ SDone (Some (FErr (s_req b) EInternal))); auto; try reflexivity.
+      * intros f E. inversion E. reflexivity.
+      * intros h' k y ok [H | []]. discriminate.
+    + eapply apply_inv; eauto.
+      apply (lo_fail _ _ _ _ _ _ _ SDone None); auto; try reflexivity. intros; discriminate.
+      intros h' k y ok [H | []]. discriminate.
   - (* CloneSink *)
     destruct (nth_error (subs s) h) as [b|] eqn:Hb; [|apply noop_inv; assumption].
     destruct (conn_of_sub s h b I Hb) as [cn Hcn]. pose proof (inv_sub s I _ _ Hb) as Hok.
@@ -1135,6 +1241,7 @@ Proof.
       * intros f E. inversion E. reflexivity.
       * intros h' k y ok [H | []]. discriminate.
     + eapply apply_inv; eauto. apply lo_returned; auto. intros v0 E. destruct v; try discriminate; inversion E; discriminate.
+    + eapply apply_inv; eauto. apply lo_returned; auto. intros; discriminate.
     + eapply apply_inv; eauto. apply lo_returned; auto. intros; discriminate.
     + eapply apply_inv; eauto. apply lo_returned; auto. intros; discriminate.
   - (* CloseNotify *)
@@ -1629,4 +1736,354 @@ Proof.
   split; [reflexivity|]. split; [reflexivity|]. split.
   - intros req H. repeat (destruct H as [H | H]; [discriminate H|]). exact H.
   - split; [intros []|]. exists 0%N. split; [left; reflexivity | reflexivity].
+Qed.
+
+(* ------------------------------------------------------------------ C06: accept() that FAILS (abandoned subscribe call, closed connection) *)
+(* Everything below is about the order of accept()'s steps that Gen/AcceptOrderGen.accept_steps has NOW: the equations
+   accept_phase1_now / accept_phase2_now and accept_failure_keeps_table are computed on that constant. *)
+Lemma settle_obs_shape : forall s ob, In ob (snd (settle s)) -> (exists c f, ob = OFrameOut c f) \/ (exists c, ob = OConnEnd c).
+Proof.
+  intros s ob. unfold settle. destruct (stopped s); [|intros []].
+  destruct (settle_from_spec s (conns s) 0) as [_ [_ S3]]. destruct (settle_from s 0 (conns s)); cbn in *. auto.
+Qed.
+
+Lemma settle_conn : forall s c cn', nth_error (conns (fst (settle s))) c = Some cn' ->
+  exists cn, nth_error (conns s) c = Some cn /\ c_permits cn' = c_permits cn /\ c_cap cn' = c_cap cn.
+Proof.
+  intros s c cn'. unfold settle. destruct (stopped s); [|cbn; intro H; exists cn'; auto].
+  destruct (settle_from_spec s (conns s) 0) as [S1 [S2 _]]. destruct (settle_from s 0 (conns s)) as [cs o]; cbn in *.
+  intro H. destruct (nth_error (conns s) c) as [cn|] eqn:E.
+  - exists cn. split; [reflexivity|]. destruct (S2 _ _ _ E H) as [[-> _] | [-> _]]; auto.
+  - apply nth_error_None in E. assert (c < length cs) by (apply nth_error_Some; congruence). lia.
+Qed.
+
+(* Accept1 on a live pending sink, for the order now: the three outcomes *)
+Lemma accept1_core : forall old s h b cn, nth_error (subs s) h = Some b -> nth_error (conns s) (s_conn b) = Some cn ->
+  holds_pending (s_state b) = true ->
+  step_core old s (Accept1 h) =
+    if c_open cn then
+      if call_waiting (s_state b)
+      then (apply s h b (sb_state SAccepting) (c_enq (FSubOk (s_req b) (s_id b))) (table s), [OAck])
+      else (apply s h b (sb_fail SDone (s_has_permit b))
+              (fun x => rel_conn (s_has_permit b) (c_enq (FSubOk (s_req b) (s_id b)) x)) (table s), [OAccept h false])
+    else (apply s h b (sb_fail SDone (s_has_permit b)) (rel_conn (s_has_permit b)) (table s), [OAccept h false]).
+Proof.
+  intros old s h b cn Hb Hcn Hp. cbn [step_core]. rewrite Hb, Hp, accept_phase1_now. cbn [accept_run].
+  rewrite (conn_open_eq _ _ _ Hcn). destruct (c_open cn); [destruct (call_waiting (s_state b))|]; reflexivity.
+Qed.
+
+(* a subscription that ended without ever being active stays ended *)
+Definition keeps (f : sub -> sub) : Prop := forall x, same_static x (f x) /\ s_state (f x) = s_state x.
+
+Lemma keeps_setters : forall r l i p u o,
+  keeps (rel_sub r) /\ keeps (sb_sinks l) /\ keeps (sb_inflight i) /\ keeps (sb_permit p) /\ keeps (sb_unsub u) /\
+  keeps (sb_returned o) /\ keeps (sb_ret o).
+Proof. intros. unfold keeps, rel_sub, same_static. repeat split; destruct r; reflexivity. Qed.
+
+Lemma apply_done : forall s h0 b0 fs fc t h b, nth_error (subs s) h = Some b -> s_state b = SDone ->
+  nth_error (subs s) h0 = Some b0 -> (s_state b0 = SDone -> same_static b0 (fs b0) /\ s_state (fs b0) = SDone) ->
+  exists b', nth_error (subs (apply s h0 b0 fs fc t)) h = Some b' /\ same_static b b' /\ s_state b' = SDone.
+Proof.
+  intros s h0 b0 fs fc t h b Hb Hd Hb0 Hf. unfold apply. cbn [subs]. destruct (Nat.eq_dec h h0) as [->|Ne].
+  - rewrite Hb in Hb0. inversion Hb0; subst b0. exists (fs b). split; [apply nth_error_upd_same; assumption | auto].
+  - exists b. split; [rewrite nth_error_upd_other; assumption|]. split; [repeat split | assumption].
+Qed.
+
+Lemma step_core_done : forall old s a h b, nth_error (subs s) h = Some b -> s_state b = SDone ->
+  exists b', nth_error (subs (fst (step_core old s a))) h = Some b' /\ same_static b b' /\ s_state b' = SDone.
+Proof.
+  intros old s a h b Hb Hd.
+  assert (Same : exists b', nth_error (subs s) h = Some b' /\ same_static b b' /\ s_state b' = SDone).
+  { exists b. split; [assumption|]. split; [repeat split | assumption]. }
+  assert (K : forall f, keeps f -> forall b0, s_state b0 = SDone -> same_static b0 (f b0) /\ s_state (f b0) = SDone).
+  { intros f Hf b0 E. destruct (Hf b0) as [A B]. split; [assumption | congruence]. }
+  destruct a; cbn [step_core].
+  - (* SubscribeCall *)
+    destruct (nth_error (conns s) c) as [cn|]; [|exact Same]. destruct (c_open cn && negb (stopped s)); [|exact Same].
+    destruct (c_permits cn); cbn [fst]; [exact Same|].
+    exists b. unfold upd_conn, set_conns, set_subs. cbn [subs]. split; [|split; [repeat split | assumption]].
+    rewrite nth_error_app1; [assumption | apply nth_error_Some; congruence].
+  - (* Accept1 *)
+    destruct (nth_error (subs s) h0) as [b0|] eqn:Hb0; [|exact Same].
+    destruct (holds_pending (s_state b0)) eqn:Hp; [|exact Same].
+    match goal with |- context [ar_ok ?r] => destruct (ar_ok r) end; cbn [fst];
+      (eapply apply_done; eauto; intro E; rewrite E in Hp; discriminate Hp).
+  - (* Accept2 *)
+    destruct (nth_error (subs s) h0) as [b0|] eqn:Hb0; [|exact Same].
+    destruct (s_state b0) eqn:Es; try exact Same. cbn [fst]. eapply apply_done; eauto. intro; congruence.
+  - (* Reject *)
+    destruct (nth_error (subs s) h0) as [b0|] eqn:Hb0; [|exact Same].
+    destruct (holds_pending (s_state b0)) eqn:Hp; [|exact Same]. cbn [fst].
+    eapply apply_done; eauto. intro E; rewrite E in Hp; discriminate Hp.
+  - (* AbandonCall *)
+    destruct (nth_error (subs s) h0) as [b0|] eqn:Hb0; [|exact Same].
+    destruct (s_state b0) eqn:Es; try exact Same. destruct keep; cbn [fst]; (eapply apply_done; eauto; intro; congruence).
+  - (* DropPending *)
+    destruct (nth_error (subs s) h0) as [b0|] eqn:Hb0; [|exact Same].
+    destruct (s_state b0) eqn:Es; try exact Same; cbn [fst]; (eapply apply_done; eauto; intro; congruence).
+  - (* CloneSink *)
+    destruct (nth_error (subs s) h0) as [b0|] eqn:Hb0; [|exact Same].
+    destruct (memN src (s_sinks b0) && negb (memN k (s_sinks b0))); [|exact Same]. cbn [fst].
+    eapply apply_done; eauto. apply K. apply (keeps_setters false (k :: s_sinks b0) [] false false None).
+  - (* DropSink *)
+    destruct (nth_error (subs s) h0) as [b0|] eqn:Hb0; [|exact Same].
+    destruct (memN k (s_sinks b0) && negb (memN k (map fst (s_inflight b0)))); [|exact Same]. cbn [fst].
+    destruct old; unfold drop_sink, drop_sink_old; (eapply apply_done; eauto); intro E;
+      unfold rel_sub, same_static;
+      repeat match goal with |- context [if ?c then _ else _] => destruct c end; cbn; auto.
+  - (* SendCheck *)
+    destruct (nth_error (subs s) h0) as [b0|] eqn:Hb0; [|exact Same].
+    destruct (memN k (s_sinks b0) && negb (memN k (map fst (s_inflight b0)))); [|exact Same].
+    destruct (sink_closed s b0); cbn [fst]; [exact Same|].
+    eapply apply_done; eauto. apply K. apply (keeps_setters false [] ((k, item) :: s_inflight b0) false false None).
+  - (* SendEnqueue *)
+    destruct (nth_error (subs s) h0) as [b0|] eqn:Hb0; [|exact Same].
+    destruct (inflight_of k (s_inflight b0)); [|exact Same]. cbn [fst].
+    eapply apply_done; eauto. apply K. apply (keeps_setters false [] (remove_inflight k (s_inflight b0)) false false None).
+  - (* IsClosed *)
+    destruct (nth_error (subs s) h0) as [b0|]; [|exact Same]. destruct (memN k (s_sinks b0)); exact Same.
+  - (* HandlerReturn *)
+    destruct (nth_error (subs s) h0) as [b0|] eqn:Hb0; [|exact Same].
+    destruct (s_returned b0); [exact Same|].
+    destruct (s_state b0) eqn:Es; cbn [fst]; try exact Same;
+      (eapply apply_done; eauto; intro; try congruence).
+    apply K; [|assumption]. apply (keeps_setters false [] [] false false None).
+  - (* CloseNotify *)
+    destruct (nth_error (subs s) h0) as [b0|] eqn:Hb0; [|exact Same].
+    destruct (s_ret b0); [|exact Same]. cbn [fst].
+    eapply apply_done; eauto. apply K. apply (keeps_setters false [] [] false false None).
+  - (* UnsubscribeCall *)
+    destruct (nth_error (conns s) c) as [cn|]; [|exact Same]. destruct (c_open cn && negb (stopped s)); [|exact Same].
+    cbn [fst]. unfold upd_conn, set_conns, set_subs, set_table. cbn [subs].
+    exists (unsub_map (c, target) b). split; [fold (unsub_map (c, target)); rewrite nth_error_map', Hb; reflexivity|].
+    destruct (unsub_map_facts (c, target) b) as [S [Es _]]. split; [assumption | congruence].
+  - (* WriterStep *)
+    destruct (nth_error (conns s) c) as [cn|]; [|exact Same]. destruct (c_open cn); [|exact Same].
+    destruct (c_queue cn); exact Same.
+  - (* ConnDrop *)
+    destruct (nth_error (conns s) c) as [cn|]; [|exact Same]. destruct (c_open cn); exact Same.
+  - (* ServerStop *)
+    destruct (stopped s); exact Same.
+Qed.
+
+Lemma same_static_trans : forall a b c, same_static a b -> same_static b c -> same_static a c.
+Proof. unfold same_static. intros a b c [A1 [A2 [A3 A4]]] [B1 [B2 [B3 B4]]]. repeat split; congruence. Qed.
+
+Lemma step_done : forall s a h b, nth_error (subs s) h = Some b -> s_state b = SDone ->
+  exists b', nth_error (subs (fst (step s a))) h = Some b' /\ same_static b b' /\ s_state b' = SDone.
+Proof.
+  intros s a h b Hb Hd. unfold step, step_gen. destruct (step_core_done false s a h b Hb Hd) as [b' R].
+  destruct (step_core false s a) as [s1 o1]. cbn [fst] in R. destruct (settle_subs s1) as [E _].
+  destruct (settle s1) as [s2 o2]. cbn [fst] in *. rewrite E. exists b'. exact R.
+Qed.
+
+Lemma fold_done : forall tr s o h b, nth_error (subs s) h = Some b -> s_state b = SDone ->
+  exists b', nth_error (subs (fst (fold_left (run_step step) tr (s, o)))) h = Some b' /\ same_static b b' /\ s_state b' = SDone.
+Proof.
+  induction tr as [|a tr IH]; intros s o h b Hb Hd; cbn [fold_left].
+  - exists b. split; [assumption|]. split; [repeat split | assumption].
+  - assert (E : run_step step (s, o) a = (fst (step s a), o ++ snd (step s a))).
+    { unfold run_step. cbn [fst snd]. destruct (step s a). reflexivity. }
+    rewrite E. destruct (step_done s a h b Hb Hd) as [b1 [Hb1 [S1 Hd1]]].
+    destruct (IH _ (o ++ snd (step s a)) h b1 Hb1 Hd1) as [b2 [Hb2 [S2 Hd2]]].
+    exists b2. split; [assumption|]. split; [eapply same_static_trans; eassumption | assumption].
+Qed.
+
+Lemma not_active_here : forall s h b, Inv s -> nth_error (subs s) h = Some b -> s_state b <> SActive ->
+  ~ active_here s (s_conn b) (s_id b).
+Proof.
+  intros s h b I Hb Hn [h' [b' [Hb' [_ [Ei [Ha _]]]]]].
+  assert (h' = h) by (eapply ids_inj; eauto). subst h'. rewrite Hb in Hb'. inversion Hb'; subst b'. contradiction.
+Qed.
+
+Lemma step_fst : forall s a, fst (step s a) = fst (settle (fst (step_core false s a))).
+Proof. intros. unfold step, step_gen. destruct (step_core false s a) as [s1 o1]. cbn [fst]. destruct (settle s1). reflexivity. Qed.
+
+Lemma step_snd : forall s a, snd (step s a) = snd (step_core false s a) ++ snd (settle (fst (step_core false s a))).
+Proof. intros. unfold step, step_gen. destruct (step_core false s a) as [s1 o1]. cbn [fst snd]. destruct (settle s1). reflexivity. Qed.
+
+(* the failing accept, seen through `step` *)
+Lemma accept1_step : forall s h b cn, nth_error (subs s) h = Some b -> nth_error (conns s) (s_conn b) = Some cn ->
+  holds_pending (s_state b) = true ->
+  (In (OAccept h false) (snd (step s (Accept1 h))) <-> (s_state b = SAbandoned \/ conn_open s (s_conn b) = false)) /\
+  (In (OAccept h false) (snd (step s (Accept1 h))) ->
+     table (fst (step s (Accept1 h))) = table s /\
+     (exists b1, nth_error (subs (fst (step s (Accept1 h)))) h = Some b1 /\ same_static b b1 /\ s_state b1 = SDone) /\
+     (forall cn1, nth_error (conns (fst (step s (Accept1 h)))) (s_conn b) = Some cn1 ->
+        c_permits cn1 = c_permits cn + b2n (s_has_permit b) /\ c_cap cn1 = c_cap cn)).
+Proof.
+  intros s h b cn Hb Hcn Hp.
+  assert (NoAcc : forall s1 o1, In (OAccept h false) (o1 ++ snd (settle s1)) -> In (OAccept h false) o1).
+  { intros s1 o1 Hin. apply in_app_or in Hin. destruct Hin as [Hin | Hin]; [assumption|].
+    apply settle_obs_shape in Hin. destruct Hin as [[? [? E]] | [? E]]; discriminate E. }
+  assert (Post : forall fs fc, (forall x, same_static x (fs x) /\ s_state (fs x) = SDone) ->
+            (forall x, c_permits (fc x) = c_permits x + b2n (s_has_permit b) /\ c_cap (fc x) = c_cap x) ->
+            let s1 := apply s h b fs fc (table s) in
+            table (fst (settle s1)) = table s /\
+            (exists b1, nth_error (subs (fst (settle s1))) h = Some b1 /\ same_static b b1 /\ s_state b1 = SDone) /\
+            (forall cn1, nth_error (conns (fst (settle s1))) (s_conn b) = Some cn1 ->
+               c_permits cn1 = c_permits cn + b2n (s_has_permit b) /\ c_cap cn1 = c_cap cn)).
+  { intros fs fc Hfs Hfc s1. destruct (settle_subs s1) as [E1 [E2 _]]. split; [rewrite E2; reflexivity|]. split.
+    - rewrite E1. exists (fs b). split; [apply nth_error_upd_same; assumption | apply Hfs].
+    - intros cn1 H1. destruct (settle_conn _ _ _ H1) as [cn0 [H0 [P C]]].
+      unfold s1, apply in H0. cbn [conns] in H0. rewrite nth_error_upd_same with (b := cn) in H0 by assumption.
+      inversion H0; subst cn0. rewrite P, C. apply Hfc. }
+  assert (Ffs : forall x, same_static x (sb_fail SDone (s_has_permit b) x) /\ s_state (sb_fail SDone (s_has_permit b) x) = SDone).
+  { intro x. unfold sb_fail, rel_sub, same_static. destruct (s_has_permit b); cbn; auto. }
+  rewrite step_fst, step_snd, (accept1_core false s h b cn Hb Hcn Hp), (conn_open_eq _ _ _ Hcn).
+  destruct (c_open cn) eqn:Ho; [destruct (call_waiting (s_state b)) eqn:Hw|]; cbn [fst snd].
+  - (* succeeds *)
+    assert (N : forall s1, ~ In (OAccept h false) ([OAck] ++ snd (settle s1))).
+    { intros s1 Hin. apply NoAcc in Hin. destruct Hin as [Hin | []]. discriminate Hin. }
+    split; [|intro Hin; destruct (N _ Hin)]. split; [intro Hin; destruct (N _ Hin)|].
+    intros [Ea | Ec]; [rewrite Ea in Hw; discriminate Hw | discriminate Ec].
+  - (* the call is gone *)
+    split.
+    + split; [intros _ | intros _; left; reflexivity].
+      left. destruct (s_state b); try discriminate Hp; try discriminate Hw. reflexivity.
+    + intros _. apply (Post (sb_fail SDone (s_has_permit b)) (fun x => rel_conn (s_has_permit b) (c_enq (FSubOk (s_req b) (s_id b)) x))); [exact Ffs|].
+      intro x. unfold rel_conn, b2n. destruct (s_has_permit b); cbn; split; auto; lia.
+  - (* the connection is closed *)
+    split.
+    + split; [intros _; right; reflexivity | intros _; left; reflexivity].
+    + intros _. apply (Post (sb_fail SDone (s_has_permit b)) (rel_conn (s_has_permit b))); [exact Ffs|].
+      intro x. unfold rel_conn, b2n. destruct (s_has_permit b); cbn; split; auto; lia.
+Qed.
+
+Lemma reach_cons : forall caps base meth tr a tr2,
+  reach caps base meth (tr ++ a :: tr2) =
+  fold_left (run_step step) tr2 (fst (step (fst (reach caps base meth tr)) a),
+                                 snd (reach caps base meth tr) ++ snd (step (fst (reach caps base meth tr)) a)).
+Proof.
+  intros. replace (tr ++ a :: tr2) with ((tr ++ [a]) ++ tr2) by (rewrite <- app_assoc; reflexivity).
+  rewrite reach_app, reach_snoc. reflexivity.
+Qed.
+
+Lemma pending_cases_holds : forall x, x = SPending \/ x = SAbandoned -> holds_pending x = true.
+Proof. intros x [-> | ->]; reflexivity. Qed.
+
+Lemma failed_accept_leaves_no_entry : forall caps base meth tr h b,
+  let s := fst (reach caps base meth tr) in
+  nth_error (subs s) h = Some b -> (s_state b = SPending \/ s_state b = SAbandoned) ->
+  (forall op call fs fc t, ar_ok (accept_run op call b accept_steps fs fc t) = false ->
+                           ar_table (accept_run op call b accept_steps fs fc t) = t) /\
+  (In (OAccept h false) (snd (step s (Accept1 h))) <-> (s_state b = SAbandoned \/ conn_open s (s_conn b) = false)) /\
+  (In (OAccept h false) (snd (step s (Accept1 h))) ->
+     table (fst (step s (Accept1 h))) = table s /\
+     forall tr2 cn req, let s2 := fst (reach caps base meth (tr ++ Accept1 h :: tr2)) in
+       ~ In (s_conn b, s_id b) (table s2) /\
+       (nth_error (conns s2) (s_conn b) = Some cn -> c_open cn = true -> stopped s2 = false ->
+        snd (step s2 (UnsubscribeCall (s_conn b) req (s_id b))) = [OUnsubAnswer (s_conn b) req (s_id b) false])).
+Proof.
+  intros caps base meth tr h b s Hb Hp. destruct (reach_inv caps base meth tr) as [I _]. fold s in I.
+  destruct (conn_of_sub s h b I Hb) as [cn0 Hcn0].
+  destruct (accept1_step s h b cn0 Hb Hcn0 (pending_cases_holds _ Hp)) as [Iff Post].
+  split; [intros; apply accept_failure_keeps_table; assumption|]. split; [exact Iff|].
+  intro Hfail. destruct (Post Hfail) as [Et [[b1 [Hb1 [S1 Hd1]]] _]]. split; [exact Et|].
+  intros tr2 cn req s2.
+  assert (E2 : exists b2, nth_error (subs s2) h = Some b2 /\ same_static b b2 /\ s_state b2 = SDone).
+  { unfold s2. rewrite reach_cons. fold s.
+    destruct (fold_done tr2 _ (snd (reach caps base meth tr) ++ snd (step s (Accept1 h))) h b1 Hb1 Hd1) as [b2 [Hb2 [S2 Hd2]]].
+    exists b2. split; [assumption|]. split; [eapply same_static_trans; eassumption | assumption]. }
+  destruct E2 as [b2 [Hb2 [[Ec [Ei _]] Hd2]]].
+  destruct (reach_inv caps base meth (tr ++ Accept1 h :: tr2)) as [I2 _]. fold s2 in I2.
+  assert (NA : ~ active_here s2 (s_conn b) (s_id b)).
+  { rewrite <- Ec, <- Ei. eapply not_active_here; eauto. congruence. }
+  split.
+  - intro Hin. apply NA. apply (table_active s2 _ _ I2). assumption.
+  - intros Hc Ho Hst.
+    destruct (unsubscribe_truth_table caps base meth (tr ++ Accept1 h :: tr2) (s_conn b) cn req (s_id b) Hc Ho Hst) as [r [Er [Hr _]]].
+    fold s2 in Er, Hr. rewrite Er. destruct r; [|reflexivity]. exfalso. apply NA. apply Hr. reflexivity.
+Qed.
+
+Lemma failed_accept_frees_slot : forall caps base meth tr h b cn,
+  let s := fst (reach caps base meth tr) in
+  nth_error (subs s) h = Some b -> (s_state b = SPending \/ s_state b = SAbandoned) ->
+  nth_error (conns s) (s_conn b) = Some cn ->
+  In (OAccept h false) (snd (step s (Accept1 h))) ->
+  let s1 := fst (step s (Accept1 h)) in
+  count_live s1 (s_conn b) + 1 = count_live s (s_conn b) /\
+  exists cn1, nth_error (conns s1) (s_conn b) = Some cn1 /\ c_permits cn1 = c_permits cn + 1 /\ c_cap cn1 = c_cap cn.
+Proof.
+  intros caps base meth tr h b cn s Hb Hp Hcn Hfail s1. destruct (reach_inv caps base meth tr) as [I _]. fold s in I.
+  destruct (accept1_step s h b cn Hb Hcn (pending_cases_holds _ Hp)) as [_ Post].
+  destruct (Post Hfail) as [_ [[b1 [Hb1 [[Ec _] _]]] Hperm]]. fold s1 in Hb1, Hperm.
+  assert (Es1 : s1 = fst (reach caps base meth (tr ++ [Accept1 h]))) by (rewrite reach_snoc; reflexivity).
+  destruct (reach_inv caps base meth (tr ++ [Accept1 h])) as [I1 _]. rewrite <- Es1 in I1.
+  destruct (conn_of_sub s1 h b1 I1 Hb1) as [cn1 Hcn1]. rewrite Ec in Hcn1.
+  destruct (Hperm cn1 Hcn1) as [P C].
+  assert (Hl : s_has_permit b = true).
+  { destruct (inv_sub s I _ _ Hb) as [_ [_ [_ [E _]]]]. rewrite E. unfold live. destruct Hp as [-> | ->]; reflexivity. }
+  rewrite Hl in P. cbn [b2n] in P.
+  pose proof (cap_respected caps base meth tr (s_conn b) cn Hcn) as [A _]. fold s in A.
+  pose proof (cap_respected caps base meth (tr ++ [Accept1 h]) (s_conn b) cn1) as B. rewrite <- Es1 in B. destruct (B Hcn1) as [B1 _].
+  split; [lia|]. exists cn1. auto.
+Qed.
+
+Lemma upd_snoc_last : forall A (f : A -> A) l x, upd (length l) f (l ++ [x]) = l ++ [f x].
+Proof. induction l as [|a l IH]; intro x; cbn; [reflexivity | rewrite IH; reflexivity]. Qed.
+
+Lemma failed_accept_returns_slot : forall caps base meth tr c cn req mid,
+  let s0 := fst (reach caps base meth tr) in
+  let h := length (subs s0) in
+  nth_error (conns s0) c = Some cn -> c_open cn = true -> stopped s0 = false -> count_live s0 c < c_cap cn ->
+  (mid = [AbandonCall h true] \/ mid = [ConnDrop c]) ->
+  let s2 := fst (reach caps base meth (tr ++ SubscribeCall c req :: mid)) in
+  count_live s2 c = count_live s0 c + 1 /\
+  In (OAccept h false) (snd (step s2 (Accept1 h))) /\
+  count_live (fst (step s2 (Accept1 h))) c = count_live s0 c.
+Proof.
+  intros caps base meth tr c cn req mid s0 h Hc Ho Hst Hlt Hmid s2.
+  destruct (cap_respected caps base meth tr c cn Hc) as [Hcap _]. fold s0 in Hcap.
+  destruct (c_permits cn) as [|p] eqn:Hp; [lia|].
+  set (bnew := mkSub c (id_base s0 + N.of_nat h)%N req (notif_meth s0) SPending [] [] true false false None).
+  set (s1 := upd_conn (set_subs s0 (subs s0 ++ [bnew])) c (c_set_permits p)).
+  assert (E1 : step s0 (SubscribeCall c req) = (s1, [OHandler h c req])).
+  { unfold step, step_gen. cbn [step_core]. rewrite Hc, Ho, Hst, Hp. cbn [andb negb].
+    unfold settle. cbn [stopped upd_conn set_conns set_subs]. rewrite Hst. reflexivity. }
+  assert (Hst1 : stopped s1 = false) by exact Hst.
+  assert (Hb1 : nth_error (subs s1) h = Some bnew).
+  { unfold s1, upd_conn, set_conns, set_subs. cbn [subs]. rewrite nth_error_app2 by (unfold h; lia).
+    unfold h. rewrite Nat.sub_diag. reflexivity. }
+  assert (Hc1 : nth_error (conns s1) c = Some (c_set_permits p cn)).
+  { unfold s1, upd_conn, set_conns, set_subs. cbn [conns]. apply nth_error_upd_same. assumption. }
+  assert (Hlive1 : count_live s1 c = count_live s0 c + 1).
+  { unfold count_live, s1, upd_conn, set_conns, set_subs. cbn [subs]. rewrite filter_app, app_length. cbn [filter].
+    unfold live_on at 2. cbn [s_conn bnew]. rewrite Nat.eqb_refl. reflexivity. }
+  (* the state after `mid`, its subscription h and its connection c *)
+  assert (M : exists b2, nth_error (subs s2) h = Some b2 /\ s_conn b2 = c /\ count_live s2 c = count_live s0 c + 1 /\
+                (s_state b2 = SAbandoned \/ (s_state b2 = SPending /\ conn_open s2 c = false))).
+  { unfold s2. rewrite reach_cons. fold s0. rewrite E1. cbn [fst snd].
+    destruct Hmid as [-> | ->]; cbn [fold_left]; unfold run_step; cbn [fst snd].
+    - (* the call is abandoned, the pending sink lives on *)
+      assert (E2 : step s1 (AbandonCall h true) =
+                   (apply s1 h bnew (fun x => sb_returned None (sb_state SAbandoned x)) (c_push (FErr (s_req bnew) EAbandoned)) (table s1), [OAck])).
+      { unfold step, step_gen. cbn [step_core]. rewrite Hb1. cbn [s_state bnew].
+        unfold settle. cbn [stopped apply]. rewrite Hst1. reflexivity. }
+      rewrite E2. cbn [fst].
+      exists (sb_returned None (sb_state SAbandoned bnew)). split; [|split; [reflexivity | split; [|left; reflexivity]]].
+      + unfold apply. cbn [subs]. exact (nth_error_upd_same _ (fun x => sb_returned None (sb_state SAbandoned x)) _ _ _ Hb1).
+      + rewrite <- Hlive1. unfold count_live, apply. cbn [subs].
+        pose proof (filter_length_upd _ (live_on c) (fun x => sb_returned None (sb_state SAbandoned x)) _ _ _ Hb1) as FL.
+        replace (live_on c bnew) with true in FL by (unfold live_on; cbn; rewrite Nat.eqb_refl; reflexivity).
+        replace (live_on c (sb_returned None (sb_state SAbandoned bnew))) with true in FL by (unfold live_on; cbn; rewrite Nat.eqb_refl; reflexivity).
+        lia.
+    - (* the client drops the connection *)
+      assert (E2 : step s1 (ConnDrop c) = (upd_conn s1 c c_close, [OAck])).
+      { unfold step, step_gen. cbn [step_core]. rewrite Hc1. cbn [c_open c_set_permits]. rewrite Ho.
+        unfold settle. cbn [stopped upd_conn set_conns]. rewrite Hst1. reflexivity. }
+      rewrite E2. cbn [fst].
+      exists bnew. split; [exact Hb1|]. split; [reflexivity|]. split; [exact Hlive1|]. right. split; [reflexivity|].
+      unfold conn_open, upd_conn, set_conns. cbn [conns]. rewrite nth_error_upd_same with (b := c_set_permits p cn) by assumption.
+      reflexivity. }
+  destruct M as [b2 [Hb2 [Ec2 [Hl2 Hs2]]]].
+  assert (Hp2 : s_state b2 = SPending \/ s_state b2 = SAbandoned) by (destruct Hs2 as [? | [? _]]; auto).
+  destruct (reach_inv caps base meth (tr ++ SubscribeCall c req :: mid)) as [I2 _]. fold s2 in I2.
+  destruct (conn_of_sub s2 h b2 I2 Hb2) as [cn2 Hcn2].
+  destruct (accept1_step s2 h b2 cn2 Hb2 Hcn2 (pending_cases_holds _ Hp2)) as [Iff _].
+  assert (Hfail : In (OAccept h false) (snd (step s2 (Accept1 h)))).
+  { apply Iff. rewrite Ec2. destruct Hs2 as [? | [_ ?]]; auto. }
+  split; [exact Hl2|]. split; [exact Hfail|].
+  destruct (failed_accept_frees_slot caps base meth (tr ++ SubscribeCall c req :: mid) h b2 cn2 Hb2 Hp2 Hcn2 Hfail) as [F _].
+  fold s2 in F. rewrite Ec2 in F. lia.
 Qed.
